@@ -520,6 +520,42 @@ def r16h(ctx, rep, cr):
         rep.holds('R16h', f, 'verdict', 'always the comparison of header.tx_root with compute_tx_root()')
 
 
+def r16i(ctx, rep, cr):
+    rep.rule('R16i', 'a header is accepted only by checking its signature over its own bytes: BlockHeader::verify_signature returns Ok only '
+                     'through the Ok edge of the public key\'s verify() (no success return is reachable with those edges cut), and the message '
+                     'handed to verify() derives from BlockHeader::signing_bytes of the header being checked. An accept path that skips the '
+                     'check — a cache of "signatures seen before" keyed without the signed bytes — lets an altered header that keeps '
+                     'proposer and signature through verification')
+    f = rep.require_fn('R16i', cr, BL + 'BlockHeader::verify_signature')
+    if f is None:
+        return
+    rep.analysed(f)
+    defs, uses = A.Defs(f), A.Uses(f)
+    ver = [c for c in A.calls(f) if re.search(r'::verify$', c.resolved) and not c.resolved.endswith('BlockHeader::verify_signature')]
+    if not ver:
+        rep.violation('R16i', f, 'no-verify', f.loc(), 'anchor-missing: verify_signature no longer calls a verify() primitive')
+        return
+    cut, passthrough = set(), set()
+    msg_ok = True
+    for c in ver:
+        o = A.call_outcome(f, c, uses)
+        cut |= set(o.ok)
+        if not o.ok and o.returned:
+            passthrough.add(c.bb)   # `key.verify(..).map_err(..)` as the tail expression: the result is the function's result
+        if len(c.args) > 1 and c.args[1][0] != 'k':
+            sl = A.backward_slice(f, [c.args[1]], defs)
+            if not any(x.endswith('BlockHeader::signing_bytes') for x in sl.calls):
+                msg_ok = False
+    rets = lib.success_return_reachable(f, [0], cut_edges=cut, cut_blocks=passthrough)
+    if rets:
+        rep.violation('R16i', f, 'accept-without-verify', f.loc(),
+                      'verify_signature can return Ok without the signature having been checked against this header\'s bytes')
+    elif not msg_ok:
+        rep.violation('R16i', f, 'verifies-other-bytes', f.loc(), 'the bytes handed to verify() do not come from this header\'s signing_bytes()')
+    else:
+        rep.holds('R16i', f, 'verdict', 'Ok only through verify(signing_bytes(), signature)')
+
+
 def run(ctx, rep):
     cr = ctx.crate('tensor_chain')
     r16a(ctx, rep, cr)
@@ -530,3 +566,4 @@ def run(ctx, rep):
     r16f(ctx, rep, cr)
     r16g(ctx, rep, cr)
     r16h(ctx, rep, cr)
+    r16i(ctx, rep, cr)
